@@ -16,6 +16,9 @@ def run(rep, idx, tier):
     rep.require("C13.3", 2)
     rep.require("C13.4", 1)
     rep.require("C13.5", 5)
+    rep.require("C13.6", 1)
+    from . import glue
+    glue.reset_discipline(rep, "C13.6", idx, ["event:Monitor"])
     c = get_ctx(idx, "event:Monitor.elaborate")
     rep.analysed(c.fi.site)
     rep.count("drivers", len(c.t.drivers))
